@@ -672,6 +672,62 @@ func multiScenario(progs [][]string, capN, prefill, bound int) schk.Scenario {
 	}
 }
 
+// twiceScenario: one thread calls RecvQueued twice (limit k, then the rest) on a channel holding n
+// values and keeps both results; a sender adds one more value at some point. Both results are read
+// only at the end: what the first call returned must not be affected by the second call.
+func twiceScenario(n, k int) schk.Scenario {
+	type trec struct {
+		ch   chan int
+		a, b []int
+		sent bool
+	}
+	return schk.Scenario{
+		Name: fmt.Sprintf("RecvQueued-twice/queued=%d/first-limit=%d", n, k), Bound: -1, RaceBound: -2, ExpectDeadlock: true,
+		Body: func(s *vrt.Sched) any {
+			r := &trec{ch: make(chan int, n+1)}
+			for i := 1; i <= n; i++ {
+				r.ch <- i
+			}
+			s.Spawn("helper", func() {
+				vrt.NoBlock("RecvQueued, which must never block")
+				r.a = chans.RecvQueued(r.ch, k)
+				r.b = chans.RecvQueued(r.ch, n+5)
+				vrt.NoBlock("")
+			})
+			s.Spawn("sender", func() { vrt.Send(r.ch, n+1); r.sent = true })
+			return r
+		},
+		Check: func(x *vrt.Exec, obs any) (*schk.Fail, string) {
+			r := obs.(*trec)
+			if x.Panic != "" {
+				return nil, "panic"
+			}
+			if x.NoBlockViolated != "" {
+				return schk.Failf("queued-receiver-blocked", "%s", x.NoBlockViolated), ""
+			}
+			var left []int
+			for len(r.ch) > 0 {
+				left = append(left, <-r.ch)
+			}
+			all := append(append(append([]int{}, r.a...), r.b...), left...)
+			out := fmt.Sprintf("first=%v second=%v left=%v sent=%v", r.a, r.b, left, r.sent)
+			want := n
+			if r.sent {
+				want = n + 1
+			}
+			if len(all) != want || len(r.a) != min(k, n) {
+				return schk.Failf("queued-count", "two RecvQueued calls in a row (limit %d, then unlimited) on %d queued values: %s", k, n, out), ""
+			}
+			for i, v := range all {
+				if v != i+1 {
+					return schk.Failf("queued-order-or-invented", "two RecvQueued calls in a row: the first result, the second result and the rest must read 1..%d in order: %s", want, out), ""
+				}
+			}
+			return nil, out
+		},
+	}
+}
+
 func main() {
 	r := ev.Start("C19")
 	var scs []schk.Scenario
@@ -705,6 +761,13 @@ func main() {
 			}
 		}
 	}
+	// two calls in a row by one thread, both results kept
+	for n := 0; n <= 4; n++ {
+		for k := 0; k <= n; k++ {
+			scs = append(scs, twiceScenario(n, k))
+		}
+	}
+	scs = append(scs, twiceScenario(40, 17), twiceScenario(300, 256))
 	// very long queues (a batch size / preallocation cap would sit well above the sizes above)
 	hugeCaps := []int{65535, 65537, 70000}
 	if r.Thorough() {
